@@ -19,6 +19,20 @@ NOT_DECIDED = "the liveness verdict under every interleaving with the kernel's l
 PS = 'iceoryx2_bb_posix::process_state::'
 
 
+def file_role(f, op):
+    """Which of the three monitor files a File value is, decided from where its path comes from (not from variable names):
+    generate_context_path / field context_path -> context; generate_owner_lock_path / field owner_lock_path -> owner_lock;
+    otherwise a file opened/created from the plain path argument / field state_path -> state."""
+    o = lib.origins(f, op)
+    if any(x.endswith('generate_context_path') or x == 'field:context_path' for x in o):
+        return 'context'
+    if any(x.endswith('generate_owner_lock_path') or x == 'field:owner_lock_path' for x in o):
+        return 'owner_lock'
+    if any(x.endswith('::create_file') or x.endswith('::open_file') for x in o):
+        return 'state'
+    return None
+
+
 def guard_create(F, R):
     f = F.fn(PS + 'ProcessGuardBuilder::create')
     cf = f.calls(r'ProcessGuardBuilder::create_file$')
@@ -26,16 +40,16 @@ def guard_create(F, R):
     for c in cf:
         t = sym_nstr(sym(f, c.args[1]))
         R.ob('CONST-ARG', 'CONST-ARG::%s::create_file-INIT_PERMISSION' % fnkey(f), t.endswith('INIT_PERMISSION'), 'create_file(.., %s); required INIT_PERMISSION (a monitor treats any other mode as initialised)' % t, c.where, f)
-    lock = [c for c in f.calls(r'FileDescriptorManagement::try_lock$') if 'state_file' in f.varnames(c.args[0])]
+    lock = [c for c in f.calls(r'FileDescriptorManagement::try_lock$') if file_role(f, c.args[0]) == 'state']
     sp = f.calls(r'FileDescriptorManagement::set_permission$')
     R.exact('set_permission calls in ProcessGuardBuilder::create', len(sp), 3)
     dom(R, f, lock, sp, 'state_file.try_lock<set_permission', 'no file becomes readable before the liveness lock is held: a monitor that can read an unlocked state file says dead')
     for c in lock:
         const_arg(R, f, c, 1, {'Write'}, 'lock-type', 'monitors test for a write lock')
         lock_kept(F, R, f, c, 'liveness-lock')
-    ctx = [c for c in sp if 'context_file' in f.varnames(c.args[0])]
-    others = [c for c in sp if 'context_file' not in f.varnames(c.args[0])]
-    wv = [c for c in f.calls(r'File::write_val$') if 'context_file' in f.varnames(c.args[0])]
+    ctx = [c for c in sp if file_role(f, c.args[0]) == 'context']
+    others = [c for c in sp if file_role(f, c.args[0]) != 'context']
+    wv = [c for c in f.calls(r'File::write_val$') if file_role(f, c.args[0]) == 'context']
     dom(R, f, wv, ctx, 'context.write_val(pid)<context.set_permission', 'the process id is in place before the context file leaves INIT')
     dom(R, f, others, ctx, 'other-permissions<context-permission', 'the context file is the one `state()` keys "Starting" on: it is finalised last') if False else None
     for o in others:
@@ -74,7 +88,7 @@ def monitor_state(F, R):
     st_open = [c for c in opens if f.chain(c.args[1]).endswith('state_path')]
     R.exact('state-file opens in ProcessMonitor::state', len(st_open), 1)
     # same-process comparison
-    cmps = [s for s in f.sites if s.is_call and re.search(r'PartialEq>::eq$', s.callee or '') and 'my_process_id' in sum((f.varnames(a) for a in s.args), [])]
+    cmps = [s for s in f.sites if s.is_call and re.search(r'PartialEq>::eq$', s.callee or '') and any(any(x.endswith('Process::unique_id') for x in lib.origins(f, a)) for a in s.args) and any(any(x.endswith('File::read_val') for x in lib.origins(f, a)) for a in s.args)]
     dom(R, f, cmps, st_open, 'own-process-check<open(state file)', 'closing a second descriptor of one\'s own state file would drop the process\'s lock')
     # on the equal arm the function returns Alive without reaching the open
     for c in cmps:
@@ -88,7 +102,7 @@ def monitor_state(F, R):
                     R.ob('NO-PATH', 'NO-PATH::%s::own-process-never-opens-state-file' % fnkey(f), pth is None, 'from the `my_process_id == other_process_id` arm the state file open is unreachable', c.where, f)
     # Dead only under a lock-state read of the state file
     dead = lib.agg_sites(f, r'process_state::ProcessState$', 'Dead')
-    gls = [c for c in f.calls(r'FileDescriptorManagement::get_lock_state$') if 'state_file' in f.varnames(c.args[0])]
+    gls = [c for c in f.calls(r'FileDescriptorManagement::get_lock_state$') if file_role(f, c.args[0]) == 'state']
     dom(R, f, gls, dead, 'state_file.get_lock_state<Dead', 'Dead is concluded only from the state file\'s lock')
     dom(R, f, st_open, dead, 'open(state file)<Dead', 'Dead is concluded only with the state file at hand')
     R.exact('Dead verdict sites', len(dead), 1)
@@ -128,7 +142,7 @@ def cleaner_new(F, R):
     dom(R, f, st, gls, 'state()<second-look-at-the-lock', 'verdict first')
     dom(R, f, gls, tl, 'lock-state-check<owner try_lock', 'a live process is never cleaned')
     for c in tl:
-        R.ob('FLOW', 'FLOW::%s::try_lock-on-owner-lock-file' % fnkey(f), 'owner_lock_file' in f.varnames(c.args[0]), 'try_lock receiver %s' % f.varnames(c.args[0]), c.where, f)
+        R.ob('FLOW', 'FLOW::%s::try_lock-on-owner-lock-file' % fnkey(f), file_role(f, c.args[0]) == 'owner_lock', 'try_lock receiver is the %s file' % file_role(f, c.args[0]), c.where, f)
         const_arg(R, f, c, 1, {'Write'}, 'owner-lock-type')
         lock_kept(F, R, f, c, 'owner-lock')
         # only the winner acquires ownership (which makes StateFiles::drop delete the files)
